@@ -832,6 +832,8 @@ mod t {
         if ok {
             let _ = m.entry_count();
             let _ = m.iter_entries().count();
+            // parse + use: the loader keeps the header it read for the next save
+            let _ = m.save_all();
         }
         ok
     }
@@ -940,7 +942,13 @@ mod t {
     }
     pub fn shmem_run(d: &[u8]) -> bool {
         use cascette_client_storage::shmem::control_block::{PidTracking, ShmemControlBlock};
-        let _ = PidTracking::from_mapped(d);
+        // parse + use: the counters of the table come from the mapped region
+        {
+            let mut t = PidTracking::from_mapped(d);
+            let _ = t.add_process(1234, 0);
+            let _ = t.add_process(1235, 2);
+            let _ = t.remove_process(1234);
+        }
         ShmemControlBlock::from_mapped(d).is_some()
     }
     pub fn shmem_seeds() -> Vec<(String, Vec<u8>)> {
